@@ -95,7 +95,5 @@ theorem edge_next (s : LState) (a : Ans) (hS : SInv s) (hI : KInv s) (t : Nat) :
     | exact edge_scheduled _ (Or.inr ((hI (by rw [hpc]; rfl)).rg.regResumeCb hpc).1) t
     | (unfold secondItem; repeat' split
        all_goals exact Edge.refl _)
-    | skip
-  all_goals (trace_state; sorry)
 
 end SyneTune.Tuner
